@@ -137,19 +137,21 @@ type RtmpMsg struct {
 	Payload []byte // Payload不包含Header内容。如果需要将RtmpMsg序列化成RTMP chunk，可调用 rtmp.ChunkDivider 相关的函数
 }
 
+// 注意，以下判断类函数对任意长度的Payload都是安全的（包括空Payload），长度不够时返回false或0
+
 func (msg RtmpMsg) IsAvcKeySeqHeader() bool {
-	return msg.Header.MsgTypeId == RtmpTypeIdVideo && msg.Payload[0] == RtmpAvcKeyFrame && msg.Payload[1] == RtmpAvcPacketTypeSeqHeader
+	return msg.Header.MsgTypeId == RtmpTypeIdVideo && len(msg.Payload) >= 2 && msg.Payload[0] == RtmpAvcKeyFrame && msg.Payload[1] == RtmpAvcPacketTypeSeqHeader
 }
 
 func (msg RtmpMsg) IsHevcKeySeqHeader() bool {
-	if msg.Header.MsgTypeId != RtmpTypeIdVideo {
+	if msg.Header.MsgTypeId != RtmpTypeIdVideo || len(msg.Payload) < 2 {
 		return false
 	}
 
 	isExtHeader := msg.Payload[0] & 0x80
 	if isExtHeader != 0 {
 		packetType := msg.Payload[0] & 0x0f
-		if msg.Payload[1] == 'h' && msg.Payload[2] == 'v' && msg.Payload[3] == 'c' && msg.Payload[4] == '1' && packetType == RtmpExPacketTypeSequenceStart {
+		if msg.isFourCcHvc1() && packetType == RtmpExPacketTypeSequenceStart {
 			return true
 		}
 	} else {
@@ -159,7 +161,16 @@ func (msg RtmpMsg) IsHevcKeySeqHeader() bool {
 	return false
 }
 
+// isFourCcHvc1 enhanced-rtmp的头部（1字节）后面是否跟着fourcc `hvc1`
+func (msg RtmpMsg) isFourCcHvc1() bool {
+	return len(msg.Payload) >= 5 && msg.Payload[1] == 'h' && msg.Payload[2] == 'v' && msg.Payload[3] == 'c' && msg.Payload[4] == '1'
+}
+
 func (msg RtmpMsg) IsEnhanced() bool {
+	if len(msg.Payload) == 0 {
+		return false
+	}
+
 	isExtHeader := msg.Payload[0] & 0x80
 	if isExtHeader != 0 {
 		return true
@@ -173,11 +184,11 @@ func (msg RtmpMsg) IsVideoKeySeqHeader() bool {
 }
 
 func (msg RtmpMsg) IsAvcKeyNalu() bool {
-	return msg.Header.MsgTypeId == RtmpTypeIdVideo && msg.Payload[0] == RtmpAvcKeyFrame && msg.Payload[1] == RtmpAvcPacketTypeNalu
+	return msg.Header.MsgTypeId == RtmpTypeIdVideo && len(msg.Payload) >= 2 && msg.Payload[0] == RtmpAvcKeyFrame && msg.Payload[1] == RtmpAvcPacketTypeNalu
 }
 
 func (msg RtmpMsg) IsHevcKeyNalu() bool {
-	if msg.Header.MsgTypeId != RtmpTypeIdVideo {
+	if msg.Header.MsgTypeId != RtmpTypeIdVideo || len(msg.Payload) < 2 {
 		return false
 	}
 
@@ -192,6 +203,10 @@ func (msg RtmpMsg) IsHevcKeyNalu() bool {
 }
 
 func (msg RtmpMsg) IsEnchanedHevcNalu() bool {
+	if len(msg.Payload) == 0 {
+		return false
+	}
+
 	isExtHeader := msg.Payload[0] & 0x80
 	if isExtHeader != 0 {
 		packetType := msg.Payload[0] & 0x0f
@@ -204,6 +219,10 @@ func (msg RtmpMsg) IsEnchanedHevcNalu() bool {
 }
 
 func (msg RtmpMsg) GetEnchanedHevcNaluIndex() int {
+	if len(msg.Payload) == 0 {
+		return 0
+	}
+
 	isExtHeader := msg.Payload[0] & 0x80
 	if isExtHeader != 0 {
 		packetType := msg.Payload[0] & 0x0f
@@ -224,23 +243,37 @@ func (msg RtmpMsg) IsVideoKeyNalu() bool {
 }
 
 func (msg RtmpMsg) IsAacSeqHeader() bool {
-	return msg.Header.MsgTypeId == RtmpTypeIdAudio && msg.AudioCodecId() == RtmpSoundFormatAac && msg.Payload[1] == RtmpAacPacketTypeSeqHeader
+	return msg.Header.MsgTypeId == RtmpTypeIdAudio && len(msg.Payload) >= 2 && msg.AudioCodecId() == RtmpSoundFormatAac && msg.Payload[1] == RtmpAacPacketTypeSeqHeader
 }
 
+// VideoCodecId
+//
+// @return Payload为空时返回0
 func (msg RtmpMsg) VideoCodecId() uint8 {
+	if len(msg.Payload) == 0 {
+		return 0
+	}
+
 	isExtHeader := msg.Payload[0] & 0x80
 	if isExtHeader == 0 {
 		return msg.Payload[0] & 0xF
 	}
 
-	if msg.Payload[1] == 'h' && msg.Payload[2] == 'v' && msg.Payload[3] == 'c' && msg.Payload[4] == '1' {
+	if msg.isFourCcHvc1() {
 		return RtmpCodecIdHevc
 	}
 
 	return RtmpCodecIdAvc
 }
 
+// AudioCodecId
+//
+// @return Payload为空时返回0
 func (msg RtmpMsg) AudioCodecId() uint8 {
+	if len(msg.Payload) == 0 {
+		return 0
+	}
+
 	return msg.Payload[0] >> 4
 }
 
@@ -259,10 +292,20 @@ func (msg RtmpMsg) Dts() uint32 {
 //
 // 注意，只有视频才能调用该函数获取pts，音频的dts和pts都直接使用 RtmpMsg.Header.TimestampAbs
 func (msg RtmpMsg) Pts() uint32 {
+	if len(msg.Payload) < 5 {
+		return msg.Header.TimestampAbs
+	}
 	return msg.Header.TimestampAbs + bele.BeUint24(msg.Payload[2:])
 }
 
+// Cts
+//
+// @return Payload长度不够时返回0
 func (msg RtmpMsg) Cts() uint32 {
+	if len(msg.Payload) < 5 {
+		return 0
+	}
+
 	if msg.Header.MsgTypeId == RtmpTypeIdAudio {
 		return bele.BeUint24(msg.Payload[2:])
 	}
@@ -272,6 +315,9 @@ func (msg RtmpMsg) Cts() uint32 {
 		packetType := msg.Payload[0] & 0x0F
 		switch packetType {
 		case RtmpExPacketTypeCodedFrames:
+			if len(msg.Payload) < 8 {
+				return 0
+			}
 			return bele.BeUint24(msg.Payload[5:])
 		case RtmpExPacketTypeCodedFramesX:
 			return 0
@@ -285,7 +331,10 @@ func (msg RtmpMsg) Cts() uint32 {
 }
 
 func (msg RtmpMsg) DebugString() string {
-	isExtHeader := msg.Payload[0] & 0x80
+	var isExtHeader uint8
+	if len(msg.Payload) != 0 {
+		isExtHeader = msg.Payload[0] & 0x80
+	}
 	if msg.Header.MsgTypeId == RtmpTypeIdVideo && isExtHeader != 0 {
 		frameType := msg.Payload[0] >> 4 & 0x07
 		packetType := msg.Payload[0] & 0x0F // e.g. RtmpExPacketTypeSequenceStart
